@@ -38,6 +38,15 @@ def sh(cmd, cwd=None, env=None, timeout=900):
         return rc, out.read()
 
 
+def sh_plain(cmd, cwd=None, env=None, timeout=300):
+    """Same process group as the caller (demonstrations that send signals to their own process group need that)."""
+    try:
+        p = subprocess.run(cmd, cwd=cwd, env=env, stdout=subprocess.PIPE, stderr=subprocess.STDOUT, stdin=subprocess.DEVNULL, text=True, timeout=timeout)
+        return p.returncode, p.stdout
+    except subprocess.TimeoutExpired as e:
+        return 124, (e.stdout or b'').decode(errors='replace') if isinstance(e.stdout, bytes) else (e.stdout or '')
+
+
 def load_meta(name):
     p = os.path.join(SEEDED, name, 'meta.json')
     return json.load(open(p)) if os.path.exists(p) else {}
@@ -59,8 +68,15 @@ def cmd_import(src, name):
     print('imported', name)
 
 
-def cmd_confirm(names):
-    for name in names:
+def cmd_confirm(names, jobs=6):
+    from concurrent.futures import ThreadPoolExecutor
+    with ThreadPoolExecutor(jobs) as ex:
+        list(ex.map(confirm_one, names))
+    sh(['git', '-C', REPO, 'worktree', 'prune'])
+
+
+def confirm_one(name):
+    if True:
         d = os.path.join(SEEDED, name)
         wt = f'/tmp/lv_confirm_{name}_{os.getpid()}'
         sh(['git', '-C', REPO, 'worktree', 'add', '-q', '--detach', wt, 'HEAD'])
@@ -79,6 +95,15 @@ def cmd_confirm(names):
             sh(['git', '-C', wt, 'checkout', '--', '.'])
             rc, out = sh([PY, os.path.join(d, 'demo.py')], cwd=wt, env=env, timeout=300)
             res['demo_passes_without_change'] = rc == 0
+            if rc != 0:
+                # signal-based demonstrations misbehave as session leaders: repeat both runs in the caller's process group
+                rc, out = sh_plain([PY, os.path.join(d, 'demo.py')], cwd=wt, env=env)
+                res['demo_passes_without_change'] = rc == 0
+                sh(['git', '-C', wt, 'apply', os.path.join(d, 'patch.diff')])
+                rc, out = sh_plain([PY, os.path.join(d, 'demo.py')], cwd=wt, env=env)
+                res['demo_fails_with_change'] = rc != 0
+                res['demo_mode'] = 'same process group as the caller'
+                sh(['git', '-C', wt, 'checkout', '--', '.'])
         finally:
             sh(['git', '-C', REPO, 'worktree', 'remove', '--force', wt])
         res['confirmed'] = all(res.get(k) for k in ('applies', 'suite_passes_with_change', 'demo_fails_with_change', 'demo_passes_without_change'))
@@ -207,7 +232,7 @@ def cmd_table():
         rows.append(f"| {name} | {own} | {str(m.get('summary', ''))[:150].replace('|', '/')} | {str(m.get('needs_to_manifest', ''))[:110].replace('|', '/')} | "
                     f"{'yes' if conf.get('confirmed') else 'NO'} | {'**caught**' if det.get('detected') else ('missed' if det else 'not run')}"
                     f"{' (concrete replay)' if det.get('concrete_input') else (' (no-failing-input-found)' if det.get('detected') else '')} | "
-                    f"{'; '.join(det.get('signatures', [])[:2])[:160].replace('|', '/')} | {first} | {', '.join(others) or '-'} | {', '.join(quiet) or '-'} |")
+                    f"{('; '.join(det.get('signatures', [])[:2])[:160] + (' — NOTE: ' + m['note'] if m.get('note') else '')).replace('|', '/')} | {first} | {', '.join(others) or '-'} | {', '.join(quiet) or '-'} |")
     text = ('# Seeded changes and which checks catch them\n\n'
             'Generated by `harness/run_seeded.py table`. Each change was written by a fresh sub-agent that saw only the property\n'
             'text and its own scratch worktree; "confirmed" = applies, existing suite passes with it, demo fails with it and passes without it.\n\n'
